@@ -103,6 +103,24 @@ func genWithRefusals(t *rapid.T) vh.ShimCase {
 
 const rule = "histories of 1..30 operations interleaving lock / unlock (right, wrong, empty, 300-byte and near-miss passphrases) / close with add, add-hardware-certificate, remove, remove-all, list, signers, sign and out-of-band keyring edits, starting from 0..6 underlying identities and hardware certificates; in a third of the histories the underlying agent refuses individual lock / unlock requests (fault plan on that request kind); in a quarter the underlying agent keeps listing its identities while locked; sometimes it loses its lock behind the shim's back and then refuses every unlock. Certificates are current or forever so time cannot interfere. Oracle: model with a locked flag: while locked, list = empty without error, every other listed operation errs, the keyring is unchanged (observed directly) and after the right passphrase the view equals the model's pre-lock view; wrong passphrase => error and still locked; unlock when unlocked => error; a refused lock / unlock leaves the behaviour unchanged (probed by the following operations). Non-trivial: at least one mutating operation attempted while locked and a later successful unlock."
 
+// TestC08Slow: the same histories with an underlying agent that takes seconds to answer the first
+// lock, unlock, list or sign request (a passphrase prompt, a token waiting for a touch). Slowness is
+// not a refusal: the model is unchanged.
+func TestC08Slow(t *testing.T) {
+	vh.Run(t, vh.Spec[vh.ShimCase]{Property: "C08", Name: "TestC08Slow", Journal: true,
+		Rule: "TestC08Lock's histories (with a complete lock episode) in which the underlying agent answers the first lock and / or unlock request - or the first list or sign request - only after 3.3 s (thorough: also 6.5 s); same model and oracle: a slow answer is the answer, the lock state follows it and every later operation is judged as usual. Non-trivial: as TestC08Lock.",
+		Gen: func(t *rapid.T) vh.ShimCase {
+			c := genWithRefusals(t)
+			c.SlowCodes = rapid.SampledFrom([][]int{{22}, {23}, {22, 23}, {23}, {11}, {13}}).Draw(t, "slowCodes")
+			c.SlowMS = 3300
+			if vh.Thorough() && rapid.Bool().Draw(t, "slower") {
+				c.SlowMS = 6500
+			}
+			c.ConstructPlan = nil
+			return c
+		}, Exec: exec})
+}
+
 func TestC08Lock(t *testing.T) {
-	vh.Run(t, vh.Spec[vh.ShimCase]{Property: "C08", Name: "TestC08Lock", Rule: rule, Gen: genWithRefusals, Exec: exec})
+	vh.Run(t, vh.Spec[vh.ShimCase]{Property: "C08", Name: "TestC08Lock", Rule: rule + vh.ShimGenNote, Gen: genWithRefusals, Exec: exec})
 }
